@@ -158,8 +158,8 @@ func (c *Ctl) rel(p string) string {
 	return r
 }
 
-// step is called before a mutating primitive. It returns errDead when the
-// process is (already) dead and panics with Crashed at the crash point.
+// step is called before a mutating primitive. It returns errDead at the crash
+// point and ever after.
 func (c *Ctl) step(desc string) error {
 	if c == nil {
 		return nil
@@ -172,29 +172,26 @@ func (c *Ctl) step(desc string) error {
 	c.n++
 	c.log = append(c.log, desc)
 	if c.CrashAt > 0 && c.n == c.CrashAt {
+		// Crash point: this primitive and every later one does not happen. The
+		// caller sees an error; whatever it does next has no file-system effect
+		// (a panic here would run kraken's deferred functions under its own
+		// non-reentrant locks and can deadlock).
 		c.dead = true
-		at := c.n
+		c.n--
+		c.log = c.log[:len(c.log)-1]
 		c.mu.Unlock()
-		panic(Crashed{At: at})
+		return errDead
 	}
 	c.mu.Unlock()
 	return nil
 }
 
-// RunToCrash runs f and reports whether it ended by reaching the crash point
-// of any Ctl (other panics propagate).
-func RunToCrash(f func()) (crashed bool) {
-	defer func() {
-		if r := recover(); r != nil {
-			if _, ok := r.(Crashed); ok {
-				crashed = true
-				return
-			}
-			panic(r)
-		}
-	}()
+// RunToCrash runs f and reports whether the crash point was reached. After the
+// crash point every mutating primitive under Root fails without effect, so the
+// directory is exactly the image a process crash would have left.
+func (c *Ctl) RunToCrash(f func()) (crashed bool) {
 	f()
-	return false
+	return c.Dead()
 }
 
 // ---- mutating functions ---------------------------------------------------
